@@ -1040,10 +1040,13 @@ impl Drop for IoUring {
                 self.submission_queue.ring_ptr,
                 NonZeroUsize::new(self.submission_queue.ring_size).unwrap(),
             );
-            let _ = munmap(
-                self.completion_queue.ring_ptr,
-                NonZeroUsize::new(self.completion_queue.ring_size).unwrap(),
-            );
+            // With `IORING_FEAT_SINGLE_MMAP` both rings share the mapping released above
+            if self.completion_queue.ring_ptr != self.submission_queue.ring_ptr {
+                let _ = munmap(
+                    self.completion_queue.ring_ptr,
+                    NonZeroUsize::new(self.completion_queue.ring_size).unwrap(),
+                );
+            }
         }
         let _ = crate::unistd::close(self.fd);
     }
